@@ -14,46 +14,66 @@
 (*   CompleteRun   run manifest rewritten with status "complete"           *)
 (*   Abort(m)      an exception escapes member m: members that started are *)
 (*                 saved, the run is never completed                       *)
+(*   SignalStopAll(m)  the running member m raises the cross-path signal   *)
+(*                 stop_all().  In a serial run whose method looks at the  *)
+(*                 signal (Honours: IMPL, only next_paths does) no further *)
+(*                 member starts: the members after m are CANCELLED - they *)
+(*                 never get a directory - and the run is still completed. *)
 (* Serial runs interleave AddResult/Save per member; breadth-first runs    *)
 (* add every member first and save them all at the end.                    *)
 (***************************************************************************)
 EXTENDS Naturals, Sequences, FiniteSets, TLC
 
-CONSTANTS NMem, Kind      \* Kind \in {"serial", "byline"}
+CONSTANTS NMem, Kind,     \* Kind \in {"serial", "byline"}
+          Honours         \* BOOLEAN: the serial run method looks at stop_all() before it starts a member
 
 VARIABLES runStatus,      \* "none" | "start" | "complete" | "aborted"
           mstat,          \* per member: "none" | "added" | "saved"
+          halt,           \* stop_all() has been signalled in this run
           log             \* the manager calls so far
-avars == <<runStatus, mstat, log>>
+avars == <<runStatus, mstat, halt, log>>
 Mem == 1..NMem
 
-AInit == runStatus = "none" /\ mstat = [m \in Mem |-> "none"] /\ log = <<>>
+AInit == runStatus = "none" /\ mstat = [m \in Mem |-> "none"] /\ halt = FALSE /\ log = <<>>
+
+\* the run has been shut down by stop_all(): what has not started never will
+ShutDown == Kind = "serial" /\ Honours /\ halt
+Cancelled(m) == ShutDown /\ mstat[m] = "none"
 
 StartRun == /\ runStatus = "none"
-            /\ runStatus' = "start" /\ UNCHANGED mstat /\ log' = Append(log, <<"start", 0>>)
+            /\ runStatus' = "start" /\ UNCHANGED <<mstat, halt>> /\ log' = Append(log, <<"start", 0>>)
 AddResult(m) ==
-  /\ runStatus = "start" /\ mstat[m] = "none"
+  /\ runStatus = "start" /\ mstat[m] = "none" /\ ~ShutDown
   /\ \A x \in 1..(m-1) : mstat[x] # "none"                                   \* in group order
   /\ Kind = "serial" => \A x \in 1..(m-1) : mstat[x] = "saved"               \* one after another
-  /\ mstat' = [mstat EXCEPT ![m] = "added"] /\ UNCHANGED runStatus /\ log' = Append(log, <<"add", m>>)
+  /\ mstat' = [mstat EXCEPT ![m] = "added"] /\ UNCHANGED <<runStatus, halt>> /\ log' = Append(log, <<"add", m>>)
 Save(m) ==
   /\ runStatus \in {"start", "aborted"} /\ mstat[m] = "added"
   /\ Kind = "byline" => \A x \in Mem : mstat[x] # "none" \/ runStatus = "aborted"
-  /\ mstat' = [mstat EXCEPT ![m] = "saved"] /\ UNCHANGED runStatus /\ log' = Append(log, <<"save", m>>)
+  /\ mstat' = [mstat EXCEPT ![m] = "saved"] /\ UNCHANGED <<runStatus, halt>> /\ log' = Append(log, <<"save", m>>)
+\* a member can only signal while it runs: added, not yet saved
+SignalStopAll(m) ==
+  /\ runStatus = "start" /\ mstat[m] = "added" /\ ~halt
+  /\ halt' = TRUE /\ UNCHANGED <<runStatus, mstat>> /\ log' = Append(log, <<"stopall", m>>)
 CompleteRun ==
-  /\ runStatus = "start" /\ \A m \in Mem : mstat[m] = "saved"
-  /\ runStatus' = "complete" /\ UNCHANGED mstat /\ log' = Append(log, <<"complete", 0>>)
+  /\ runStatus = "start" /\ \A m \in Mem : mstat[m] = "saved" \/ Cancelled(m)
+  /\ runStatus' = "complete" /\ UNCHANGED <<mstat, halt>> /\ log' = Append(log, <<"complete", 0>>)
 \* an exception escapes while member m is running (serial) / while any line is processed (byline)
 Abort ==
   /\ runStatus = "start" /\ \E m \in Mem : mstat[m] = "added"
-  /\ runStatus' = "aborted" /\ UNCHANGED mstat /\ log' = Append(log, <<"abort", 0>>)
+  /\ runStatus' = "aborted" /\ UNCHANGED <<mstat, halt>> /\ log' = Append(log, <<"abort", 0>>)
 
-ANext == StartRun \/ (\E m \in Mem : AddResult(m) \/ Save(m)) \/ CompleteRun \/ Abort
+ANext == StartRun \/ (\E m \in Mem : AddResult(m) \/ Save(m) \/ SignalStopAll(m)) \/ CompleteRun \/ Abort
 ASpec == AInit /\ [][ANext]_avars
 
 \* ---- properties ---------------------------------------------------------------------------------
 \* the run manifest claims completion only when every member has been saved
-CompleteMeansAllSaved == runStatus = "complete" => \A m \in Mem : mstat[m] = "saved"
+\* (or, after a shutdown by stop_all(), never started)
+CompleteMeansAllSaved == runStatus = "complete" => \A m \in Mem : mstat[m] = "saved" \/ Cancelled(m)
+\* the cancelled members are a proper suffix of the group: something ran, and nothing after a cancelled member ever started
+CancelledIsSuffix == \A m \in Mem : Cancelled(m) => m > 1 /\ \A x \in m..NMem : mstat[x] = "none"
+\* a cancelled member never got a directory
+CancelledNeverAdded == \A m \in Mem : Cancelled(m) => \A i \in 1..Len(log) : log[i] # <<"add", m>>
 \* an aborted run never becomes complete
 AbortedStaysAborted == [][runStatus = "aborted" => runStatus' = "aborted"]_avars
 \* a member is saved at most once, and only after it was added
@@ -62,6 +82,8 @@ SaveAfterAdd == \A i \in 1..Len(log) : log[i][1] = "save" =>
 \* after an abort every member that had started still gets saved (eventually, before the call returns):
 \* stated on terminal states of the lifecycle
 Terminal == ~ENABLED ANext
+\* every run that started ends as complete or aborted - also one that stop_all() shut down (C09: the run manifest says what the run did)
+EveryRunEnds == Terminal => runStatus \in {"complete", "aborted"}
 AbortLeavesRecords == (Terminal /\ runStatus = "aborted") => \A m \in Mem : mstat[m] # "added"
 
 \* aggregation used by the run manifest and by ResultsManager.is_valid (C04)
